@@ -169,32 +169,70 @@ def _7z_num(v: int) -> bytes:
     return b"\xff" + v.to_bytes(8, "little")
 
 
-def make_7z(members, damage_folder=None) -> bytes:
-    """Minimal 7z writer: one folder (LZMA2, 64 KiB dictionary) per member, plain header.
+def _7z_bits(bits) -> bytes:
+    out = bytearray((len(bits) + 7) // 8)
+    for i, b in enumerate(bits):
+        if b:
+            out[i // 8] |= 0x80 >> (i % 8)
+    return bytes(out)
+
+
+def make_7z(members, damage_folder=None, anti=()) -> bytes:
+    """Minimal 7z writer, plain header.  members: (name, data); data = bytes with content -> one folder (LZMA2,
+    64 KiB dictionary) per member; data = b"" -> stream-less EMPTY FILE (kEmptyStream + kEmptyFile);
+    data = None -> DIRECTORY (kEmptyStream only); names in `anti` (stream-less entries) get the kAnti bit.
     damage_folder = i: the packed stream of folder i starts with an invalid LZMA2 control byte, so the
     header parses, the archive is not encrypted, the folders before i decode, folder i does not."""
     import lzma
     import zlib
     filt = [{"id": lzma.FILTER_LZMA2, "dict_size": 1 << 16}]
-    packed = [lzma.compress(d, format=lzma.FORMAT_RAW, filters=filt) for _, d in members]
+    full = [(nm, d) for nm, d in members if d]
+    packed = [lzma.compress(d, format=lzma.FORMAT_RAW, filters=filt) for _, d in full]
     if damage_folder is not None:
         blob = bytearray(packed[damage_folder])
         blob[0] = 0x03
         packed[damage_folder] = bytes(blob)
-    n = len(members)
+    n = len(full)
     h = bytearray(b"\x01\x04")                                   # Header, MainStreamsInfo
     h += b"\x06" + _7z_num(0) + _7z_num(n)                       # PackInfo
     h += b"\x09" + b"".join(_7z_num(len(p)) for p in packed) + b"\x00"
     h += b"\x07\x0b" + _7z_num(n) + b"\x00"                      # UnpackInfo / Folder
-    for _ in members:
+    for _ in full:
         h += _7z_num(1) + bytes([0x21]) + b"\x21" + _7z_num(1) + b"\x08"     # one coder: LZMA2, 1 prop byte
-    h += b"\x0c" + b"".join(_7z_num(len(d)) for _, d in members) + b"\x00"
+    h += b"\x0c" + b"".join(_7z_num(len(d)) for _, d in full) + b"\x00"
     h += b"\x08\x00" + b"\x00"                                   # SubStreamsInfo (1 per folder), end streams
+    h += b"\x05" + _7z_num(len(members))                         # FilesInfo
+    empty = [not d for _, d in members]
+    if any(empty):
+        v = _7z_bits(empty)
+        h += b"\x0e" + _7z_num(len(v)) + v                        # kEmptyStream
+        v = _7z_bits([d is not None for _, d in members if not d])
+        h += b"\x0f" + _7z_num(len(v)) + v                        # kEmptyFile (set: empty file, clear: directory)
+        if anti:
+            v = _7z_bits([nm in anti for nm, d in members if not d])
+            h += b"\x10" + _7z_num(len(v)) + v                    # kAnti
     names = b"\x00" + b"".join(nm.encode("utf-16-le") + b"\x00\x00" for nm, _ in members)
-    h += b"\x05" + _7z_num(n) + b"\x11" + _7z_num(len(names)) + names + b"\x00" + b"\x00"
+    h += b"\x11" + _7z_num(len(names)) + names + b"\x00" + b"\x00"
     body = b"".join(packed)
     start = struct.pack("<QQI", len(body), len(h), zlib.crc32(bytes(h)) & 0xFFFFFFFF)
     return b"7z\xbc\xaf\x27\x1c\x00\x04" + struct.pack("<I", zlib.crc32(start) & 0xFFFFFFFF) + start + body + bytes(h)
+
+
+def escaping_7z_docs(abs_dir: str) -> dict:
+    """7z archives with one healthy member and one STREAM-LESS entry (empty file / directory / anti item)
+    whose name leaves the extraction directory: ../x, ../../x, a/../../x, absolute (below abs_dir, a
+    directory that must never come into existence).  A correct reader refuses them (or ignores the entry)
+    and leaves nothing behind - neither in the extraction directory nor next to it."""
+    healthy = ("notes.txt", b"healthy member next to an escaping entry\n" * 4)
+    names = {"up1": "../c15-escape-up1.txt", "up2": "../../c15-escape-up2.txt",
+             "mid": "a/../../c15-escape-mid.txt", "abs": abs_dir.rstrip("/") + "/c15-escape-abs.txt"}
+    out = {}
+    for tag, nm in names.items():
+        out[f"escape-emptyfile-{tag}.7z"] = make_7z([healthy, (nm, b"")])
+        out[f"escape-dir-{tag}.7z"] = make_7z([healthy, (nm.replace(".txt", ".d"), None)])
+        out[f"escape-anti-{tag}.7z"] = make_7z([healthy, (nm, b"")], anti=(nm,))
+    out["emptyfile-ok.7z"] = make_7z([healthy, ("empty.txt", b""), ("sub", None)])      # the harmless shape
+    return out
 
 
 def archive_docs() -> dict:
